@@ -304,6 +304,20 @@ impl C13 {
                         w.write(&gff_record(r)).map_err(|e| e.to_string())?;
                     }
                 }
+                if round == 2 {
+                    // comment lines must be skipped by the path-based readers too
+                    for path in [&pb, &pg] {
+                        let data = std::fs::read(path).map_err(|e| e.to_string())?;
+                        let mut out: Vec<u8> = b"# leading comment\twith\ttabs\n".to_vec();
+                        for (i, line) in data.split_inclusive(|&c| c == b'\n').enumerate() {
+                            out.extend_from_slice(line);
+                            if i % 2 == 0 && line.ends_with(b"\n") {
+                                out.extend_from_slice(b"#comment between records\n");
+                            }
+                        }
+                        std::fs::write(path, out).map_err(|e| e.to_string())?;
+                    }
+                }
                 let mut rb = bed::Reader::from_file(&pb).map_err(|e| e.to_string())?;
                 let b: Vec<BedRec> = rb.records().map(|r| r.map(|r| bed_of(&r)).map_err(|e| e.to_string())).collect::<Result<_, _>>()?;
                 let mut rg = gff::Reader::from_file(&pg, ty).map_err(|e| e.to_string())?;
